@@ -11,6 +11,7 @@ import (
 	"net"
 	"runtime/pprof"
 	"sort"
+	"strconv"
 	"strings"
 	"sync"
 	"time"
@@ -139,6 +140,9 @@ type Conf struct {
 
 func (c Conf) String() string {
 	s := c.Proto
+	if k.W != nil && k.W.Spec != nil && k.W.Spec.P("pgoos", "") == "windows" {
+		s += "+tcp"
+	}
 	if c.Mux {
 		s += "+mux"
 	}
@@ -241,6 +245,13 @@ func (r *Run) ClientConfig(c Conf) *plugin.ClientConfig {
 	}
 	cmd := simexec.Command(c.Path)
 	cmd.SimName = c.Name
+	// "pgoos=windows": the plugin process is a Windows-style one - go-plugin
+	// gives it TCP listeners on 127.0.0.1 (main and brokered) instead of Unix
+	// sockets
+	pgoos := r.Spec.P("pgoos", "")
+	if pgoos != "" {
+		cmd.SimOpts = &k.SpawnOpts{GOOS: pgoos}
+	}
 	switch c.Launch {
 	case "runner":
 		tr := c.Translate
@@ -248,6 +259,9 @@ func (r *Run) ClientConfig(c Conf) *plugin.ClientConfig {
 			cmd2.Path = c.Path
 			cmd2.Args = []string{c.Path}
 			cmd2.SimName = c.Name
+			if pgoos != "" && !tr {
+				cmd2.SimOpts = &k.SpawnOpts{GOOS: pgoos}
+			}
 			return NewSimRunner(r, cmd2, tmpDir, tr)
 		}
 	default:
@@ -426,6 +440,12 @@ func (s *SimRunner) Start(ctx ctxT) error {
 		s.r.W.MkdirAs(plugRoot, "harness")
 		s.r.W.MkdirAs(plugRoot+"/tmp", "harness")
 		s.cmd.SimOpts = &k.SpawnOpts{Chroot: plugRoot, Mounts: []k.Mount{{From: plugSock, To: s.tmpDir}}}
+		if s.r.Spec.P("pgoos", "") == "windows" {
+			// ... and a network namespace of its own, its ports published on the
+			// host 1000 higher, the host's visible inside 2000 higher
+			s.cmd.SimOpts.GOOS, s.cmd.SimOpts.NetNS = "windows", "plug"
+			s.r.W.PortMaps = []k.PortMap{{From: "", To: "plug", Shift: 1000}, {From: "plug", To: "", Shift: 2000}}
+		}
 		for i, kv := range s.cmd.Env {
 			if strings.HasPrefix(kv, plugin.EnvUnixSocketDir+"=") {
 				s.cmd.Env[i] = plugin.EnvUnixSocketDir + "=" + plugSock
@@ -464,7 +484,23 @@ func (s *SimRunner) ID() string {
 	}
 	return fmt.Sprint(s.cmd.Process.Pid)
 }
+
+// shiftPort adds d to the port of a host:port address.
+func shiftPort(a string, d int) string {
+	hst, port, err := net.SplitHostPort(a)
+	if err != nil {
+		return a
+	}
+	pn, _ := strconv.Atoi(port)
+	return net.JoinHostPort(hst, strconv.Itoa(pn+d))
+}
+
 func (s *SimRunner) PluginToHost(n, a string) (string, string, error) {
+	if s.xlate && n == "tcp" {
+		// the container's ports are published on the host 1000 higher
+		s.r.W.Probe("xlate.plugin2host.tcp")
+		return n, shiftPort(a, 1000), nil
+	}
 	if !s.xlate || n != "unix" {
 		return n, a, nil
 	}
@@ -475,6 +511,11 @@ func (s *SimRunner) PluginToHost(n, a string) (string, string, error) {
 	return n, plugRoot + a, nil
 }
 func (s *SimRunner) HostToPlugin(n, a string) (string, string, error) {
+	if s.xlate && n == "tcp" {
+		// the host's ports are reachable from inside the container 2000 higher
+		s.r.W.Probe("xlate.host2plugin.tcp")
+		return n, shiftPort(a, 2000), nil
+	}
 	if !s.xlate || n != "unix" {
 		return n, a, nil
 	}
